@@ -18,7 +18,7 @@ for name in sorted(os.listdir(S)):
     k = int(name.split("-")[1])
     meta = {
         "seed": name, "breaks_property": pid, "property_title": props[pid],
-        "round": 1 if k <= 3 else (3 if k <= 6 and pid not in ("C03", "C08", "C11", "C19") else 4),
+        "round": ("1-2" if k <= 3 else "3-5") if k <= 9 else 6 + (k - 10) // 3,
         "origin": "independent sub-agent working only from the property text in its own scratch git worktree of /repo (no access to /verif)",
         "files_changed": files,
         "needs_to_manifest": notes.strip()[:1500],
